@@ -16,7 +16,8 @@ RULE = (
     "cases: datasets with an x dimension (2-6 points), a z dimension "
     "(1-14 numeric or str values, so both the legend and the colour-bar "
     "regimes), optional row/col dimensions, y with its dimensions in any "
-    "order, x as coordinate or as a variable, NaN/inf patterns incl. all-NaN "
+    "order, z values in ascending or shuffled order, x as coordinate or as a "
+    "variable (also 2-D x and y without z), NaN/inf patterns incl. all-NaN "
     "series, optional y_err and colour variable c, multi-variable y, log "
     "axes, colors None/True/list, named colour maps (plain, reversed, log), "
     "markers, legend/colorbar overrides, legend_marker_alpha, bins; plot "
@@ -67,6 +68,8 @@ def build(case):
         zs = [0.25 + 1.5 * i for i in range(nz)]
     else:
         zs = [3 + 2 * i for i in range(nz)]
+    if case.get("z_shuffled"):
+        random.Random(case["seed"] + 9).shuffle(zs)   # non-monotonic order
     coords = {"x": xs, "z": zs}
     dims = ["z", "x"]
     sizes = {"x": nx, "z": nz}
@@ -105,7 +108,10 @@ def build(case):
     dv["y2"] = (order, data(case["seed"] + 4))
     dv["ye"] = (order, np.abs(data(case["seed"] + 5)) / 10)
     dv["cc"] = (order, data(case["seed"] + 6, positive=True))
-    dv["cz"] = (("z",), [1.5 + 0.75 * i * i for i in range(nz)])
+    czv = [1.5 + 0.75 * i * i for i in range(nz)]
+    if case.get("z_shuffled"):
+        random.Random(case["seed"] + 10).shuffle(czv)
+    dv["cz"] = (("z",), czv)
     if case.get("x_is_var"):
         xv = np.array([[xs[j] + 0.01 * i for j in range(nx)]
                        for i in range(nz)])
@@ -162,7 +168,28 @@ def run_case(case):
     zs = ds["z"].values.tolist()
     multi = case.get("multi_y")
     try:
-        if kind in ("lineplot", "scatter"):
+        if kind in ("lineplot", "scatter") and case.get("no_z"):
+            with under_test(kind + "(2-D x and y, no z)"):
+                fig = getattr(x, kind)(ds, "xv", "y", **opts)
+            ref = series_xy(ds, "xv", "y")
+            ax = fig.axes[0]
+            if kind == "lineplot":
+                arts = data_lines(ax)
+                require(len(arts) == 1, "series-count", f"{len(arts)} lines")
+                gx, gy = np.asarray(arts[0].get_xdata(), float), \
+                    np.asarray(arts[0].get_ydata(), float)
+            else:
+                arts = [c for c in ax.collections
+                        if type(c).__name__ == "PathCollection"]
+                require(len(arts) == 1, "series-count", f"{len(arts)}")
+                off = np.asarray(arts[0].get_offsets(), float).reshape(-1, 2)
+                gx, gy = off[:, 0], off[:, 1]
+            got = sorted(zip(gx.tolist(), gy.tolist()))
+            want = sorted(zip(ref[0].tolist(), ref[1].tolist()))
+            require(got == want, "series-data",
+                    lambda: f"2-D x/y without z: drawn pairs {got!r:.300} "
+                            f"vs dataset pairs {want!r:.300}")
+        elif kind in ("lineplot", "scatter"):
             f = getattr(x, kind)
             yarg = ["y", "y2"] if multi else "y"
             zarg = None if multi else "z"
@@ -466,6 +493,13 @@ def strategy(draw):
     if kind in ("lineplot", "scatter"):
         case["x_is_var"] = draw(st.sampled_from([False, False, True])) \
             and not case.get("multi_y")
+        case["z_shuffled"] = draw(st.sampled_from([False, True]))
+        if case["x_is_var"] and not case.get("nrow") and \
+                not case.get("ncol") and draw(st.booleans()):
+            # one series, x and y both 2-D (often square, dims in any order)
+            case["no_z"] = True
+            if draw(st.booleans()):
+                case["nz"] = case["nx"]
         case["colors"] = draw(st.sampled_from(
             [None, None, True, True, ["red", "blue", "green"]]))
         case["colormap"] = draw(st.sampled_from(
@@ -482,7 +516,11 @@ def strategy(draw):
             case["y_err"] = draw(st.sampled_from([False, False, True]))
             case["legend_marker_alpha"] = draw(st.sampled_from(
                 [None, None, 0.5]))
-        if draw(st.sampled_from([False, False, True])) and \
+        if case.get("no_z"):
+            case["colors"] = None
+            case["y_err"] = False
+            case["colorbar"] = None
+        elif draw(st.sampled_from([False, False, True])) and \
                 not case.get("multi_y"):
             case["c"] = True
             case["colors"] = None
